@@ -1,8 +1,19 @@
 #include "slu_mt_@p@defs.h"
 /* the field as fscanf("%16c"/"%20c") leaves it: FW characters, no terminator */
 char in_buf[FW]; int_t in_num, in_size, g_ret;
+#if RB
+/* the static copy of the parser in ?readrb.c is reached through ?readrb; libc is stubs/rb_drv_stubs.c, which delivers in_buf as the value-format field */
+void @p@readrb(int_t *, int_t *, int_t *, @T@ **, int_t **, int_t **);
+int_t in_nrow, in_ncol, in_nonz; @T@ *in_nzval; int_t *in_rowind, *in_colptr; extern int g_fields_delivered, g_fgets_calls;
+#else
 int_t @p@Parse@KIND@Format(char *, int_t *, int_t *);
+#endif
 void h_fmt(void) {
+#if RB
+  g_fields_delivered = 0; g_fgets_calls = 0;
+  @p@readrb(&in_nrow, &in_ncol, &in_nonz, &in_nzval, &in_rowind, &in_colptr);
+#else
   g_ret = @p@Parse@KIND@Format(in_buf, &in_num, &in_size);
+#endif
   __CPROVER_assert(0, "canary: parser returns");
 }
